@@ -49,6 +49,15 @@ pub fn stark_commit<Layout: LayoutTrait>(
     let oods_coefficients =
         powers_array(Felt::ONE, oods_alpha, (Layout::MASK_SIZE + Layout::CONSTRAINT_DEGREE) as u32);
 
+    // fri_commit reads one commitment per inner layer and exactly 2^log_last_layer_degree_bound
+    // last-layer coefficients: a proof of any other shape is an error, not an assertion failure.
+    if Felt::from(unsent_commitment.fri.inner_layers.len()) + Felt::ONE != config.fri.n_layers
+        || Felt::from(unsent_commitment.fri.last_layer_coefficients.len())
+            != Felt::TWO.pow_felt(&config.fri.log_last_layer_degree_bound)
+    {
+        return Err(Error::FriCommitmentShape);
+    }
+
     // Read fri commitment.
     let fri_commitment = fri_commit(transcript, unsent_commitment.fri.clone(), config.fri.clone());
 
@@ -95,6 +104,9 @@ pub enum Error {
 
     #[error("OodsVerifyError Error")]
     Oods(#[from] oods::OodsVerifyError),
+
+    #[error("fri commitment has the wrong number of layers or last layer coefficients")]
+    FriCommitmentShape,
 }
 
 #[cfg(not(feature = "std"))]
@@ -108,4 +120,7 @@ pub enum Error {
 
     #[error("OodsVerifyError Error")]
     Oods(#[from] oods::OodsVerifyError),
+
+    #[error("fri commitment has the wrong number of layers or last layer coefficients")]
+    FriCommitmentShape,
 }
